@@ -202,6 +202,19 @@ CLAIMED = {
         note="Trusted: TLC; the MRO table of the fixed class family in Adaptation.tla matches the generated Python "
              "classes; factories' success depends only on their position in the chain.",
         design="4/C17"),
+    "C20": dict(
+        technique=TLA + "SyncTrait.tla models the propagation operationally (per-object lock table, partner loop in "
+                  "registration order, recursive handler runs); SyncTraitMC checks convergence to the declarative closure, "
+                  "termination, at-most-once notification, no reverse effect of one-way links and lock release for EVERY "
+                  "topology of up to 4 directed links; recorded steps on three real objects are judged by TLC with the "
+                  "declarative closure (Trace_SyncTrait)",
+        text="Exhaustive over all link topologies (4632) x assignments in TLC; conformance on seeded histories (26k steps "
+             "quick): Int / aliased Int / Range partner (rejecting) / List / aliased List, mutual and one-way links in "
+             "random registration order, removal, garbage collection of a partner, every in-place list operation incl. "
+             "extended slices.",
+        note="Trusted: TLC; topologies in conformance are hub-shaped (no cycle through three list partners); handler "
+             "exceptions are contained by the default notification handler. F4 and F19 fixed in /repo.",
+        design="4/C20"),
 }
 
 NOT_YET = "check not built yet (work in progress in this round; see DESIGN.md section 4 for the planned specification)"
